@@ -2,6 +2,7 @@
 From Coq Require Import Uint63.
 From BaoV Require Export Run.RunProto Model.IOCalls.
 Open Scope N_scope.
+Notation mkOb3 := (@mkOb B3).
 
 Definition obj_of (n : N) : io_obj :=
   if n =? 1 then ODataSeq else if n =? 2 then ODataAt else if n =? 3 then OStreamIn else if n =? 4 then OStreamOut
@@ -17,7 +18,18 @@ Definition fault_sites (a : list N) : list site :=
   let op := arg a 4 in
   let t := mkTree (blen B3 data) bs in
   let q := skipn 9 a in
-  if op =? 0 then create_sites t true
+  if (op =? 1) || (op =? 9) then
+    (* init_from of an io-backed outboard over a byte store: one positioned write per stored pair, then flush *)
+    let ob := mkOb3 (if op =? 1 then PostIO else PreIO) [] t [] in
+    flat_map (fun c => match c with
+                       | CLeaf _ size _ _ => [mkSite ODataSeq size 0 io_err]
+                       | CParent node _ _ _ _ =>
+                           match ob_offset B3 ob node with
+                           | Some o => [mkSite OObSave (o * 64) 64 io_err]
+                           | None => []
+                           end
+                       end) (post_order_chunks_iter t) ++ [mkSite OObSync 0 0 io_err]
+  else if op =? 0 then create_sites t true
   else if op =? 2 then create_sites t false
   else if (op =? 3) || (op =? 4) then create_po_sites t
   else if op =? 5 then enc_sites B3 false true t data q
